@@ -543,7 +543,7 @@ func genNP(r *rng, idx int, tags map[string]bool) *networkingv1.NetworkPolicy {
 		// policyTypes absent (an object that never went through API-server defaulting); the API server would
 		// have filled in [Ingress] (+Egress if there are egress rules)
 		if len(np.Spec.Egress) > 0 {
-			if *absentEgress {
+			if *absentEgress && r.chance(25) {
 				tags["types:absent-with-egress"] = true
 			} else {
 				np.Spec.PolicyTypes = []networkingv1.PolicyType{networkingv1.PolicyTypeIngress, networkingv1.PolicyTypeEgress}
@@ -556,7 +556,9 @@ func genNP(r *rng, idx int, tags map[string]bool) *networkingv1.NetworkPolicy {
 	return np
 }
 
-var absentEgress = flag.Bool("absent-egress", false, "also generate policies without policyTypes that have egress rules")
+var absentEgress = flag.Bool("absent-egress", true, "also generate policies without policyTypes that have egress rules")
+var reserved = flag.Bool("reserved", true, "also generate cases using Calico-reserved label keys as ordinary labels")
+var witnesses = flag.Bool("witnesses", true, "emit the scripted witnesses of the Coq refutations first")
 
 type podInfo struct {
 	pod *kapiv1.Pod
@@ -607,6 +609,27 @@ func cIP(ip net.IP) (string, string) {
 
 // ---------------------------------------------------------------- main
 
+type connSpec struct {
+	src, dst     int // pod index, or -1 for an external address
+	srcIP, dstIP net.IP
+	proto, port  int
+}
+
+type world struct {
+	nss   []*kapiv1.Namespace
+	pods  []podInfo
+	nps   []*networkingv1.NetworkPolicy
+	conns []connSpec
+}
+
+func mkNS(name string, labels map[string]string) *kapiv1.Namespace {
+	ns := &kapiv1.Namespace{}
+	ns.Name = name
+	ns.UID = "30316465-6365-4463-ad63-3564622d3638"
+	ns.Labels = labels
+	return ns
+}
+
 func main() {
 	n := flag.Int("n", 100, "cases")
 	seed := flag.Uint64("seed", 1, "seed")
@@ -619,22 +642,27 @@ func main() {
 	profProc := updateprocessors.NewProfileUpdateProcessor()
 	wepProc := updateprocessors.NewWorkloadEndpointUpdateProcessor()
 
-	for i := 0; i < *n; i++ {
-		tags := map[string]bool{}
-		clean := true
-
-		// namespaces -> profiles
-		var clusterC, profilesC []string
-		for _, nsn := range nsNames {
-			ns := &kapiv1.Namespace{}
-			ns.Name = nsn
-			ns.UID = "30316465-6365-4463-ad63-3564622d3638"
-			ns.Labels = genLabels(r, nsKeys, nsVals, 50)
-			if r.chance(5) {
-				ns.Labels["projectcalico.org/name"] = "spoof"
-				tags["ns:name-label"] = true
+	port80 := intstr.FromInt(80)
+	// probe: which variant of the policyTypes inference does this tree have?
+	probe := &networkingv1.NetworkPolicy{}
+	probe.Name, probe.Namespace = "probe", "default"
+	probe.Spec.Egress = []networkingv1.NetworkPolicyEgressRule{{Ports: []networkingv1.NetworkPolicyPort{{Port: &port80}}}}
+	infer := false
+	if kvp, _ := conv.K8sNetworkPolicyToCalico(probe); kvp != nil {
+		if out, err := npProc.Process(kvp); err == nil && len(out) == 1 {
+			for _, t := range out[0].Value.(*model.Policy).Types {
+				if t == "egress" {
+					infer = true
+				}
 			}
-			clusterC = append(clusterC, fmt.Sprintf("(%s, %s)", cb(nsn), clabels(ns.Labels, sortedKeys(ns.Labels))))
+		}
+	}
+
+	emit := func(w *world, tags map[string]bool) {
+		clean := true
+		var clusterC, profilesC []string
+		for _, ns := range w.nss {
+			clusterC = append(clusterC, fmt.Sprintf("(%s, %s)", cb(ns.Name), clabels(ns.Labels, sortedKeys(ns.Labels))))
 			kvp, err := conv.NamespaceToProfile(ns)
 			if err != nil {
 				panic(err)
@@ -648,31 +676,30 @@ func main() {
 					m, _ := o.Value.(map[string]string)
 					profilesC = append(profilesC, fmt.Sprintf("(%s, %s)", cb(k.Name), clabels(m, sortedKeys(m))))
 				}
-				if k, ok := o.Key.(model.ProfileRulesKey); ok {
+				if _, ok := o.Key.(model.ProfileRulesKey); ok {
 					// the namespace profile must be allow-all in both directions (the Calico semantics in Spec.v rely on it)
 					pr, _ := o.Value.(*model.ProfileRules)
 					if pr == nil || len(pr.InboundRules) != 1 || len(pr.OutboundRules) != 1 || pr.InboundRules[0].Action != "allow" ||
-						pr.OutboundRules[0].Action != "allow" || pr.InboundRules[0].SrcSelector != "" || pr.OutboundRules[0].DstSelector != "" {
+						pr.OutboundRules[0].Action != "allow" || pr.InboundRules[0].SrcSelector != "" || pr.InboundRules[0].DstSelector != "" ||
+						pr.OutboundRules[0].SrcSelector != "" || pr.OutboundRules[0].DstSelector != "" ||
+						pr.InboundRules[0].Protocol != nil || pr.OutboundRules[0].Protocol != nil ||
+						len(pr.InboundRules[0].SrcNets)+len(pr.InboundRules[0].DstNets)+len(pr.InboundRules[0].DstPorts) != 0 ||
+						len(pr.OutboundRules[0].SrcNets)+len(pr.OutboundRules[0].DstNets)+len(pr.OutboundRules[0].DstPorts) != 0 {
 						clean = false
+					} else {
+						if _, c := crule(&pr.InboundRules[0]); !c {
+							clean = false
+						}
+						if _, c := crule(&pr.OutboundRules[0]); !c {
+							clean = false
+						}
 					}
-					if _, c := crule(&pr.InboundRules[0]); !c {
-						clean = false
-					}
-					if _, c := crule(&pr.OutboundRules[0]); !c {
-						clean = false
-					}
-					_ = k
 				}
 			}
 		}
 
-		// pods -> workload endpoints
-		npods := 3 + r.intn(3)
-		var pods []podInfo
 		var podsC []string
-		for j := 0; j < npods; j++ {
-			pi := genPod(r, j)
-			pods = append(pods, pi)
+		for _, pi := range w.pods {
 			kvps, err := conv.PodToWorkloadEndpoints(pi.pod)
 			if err != nil {
 				panic(err)
@@ -710,12 +737,9 @@ func main() {
 				ver, addr, clabels(lm, sortedKeys(lm)), cbytesList(wep.ProfileIDs), clist(implPorts)))
 		}
 
-		// policies
-		nnp := 1 + r.intn(2)
 		var npsC, implC []string
 		nrules := 0
-		for j := 0; j < nnp; j++ {
-			np := genNP(r, j, tags)
+		for _, np := range w.nps {
 			nrules += len(np.Spec.Ingress) + len(np.Spec.Egress)
 			npsC = append(npsC, cNP(np, r))
 			kvp, _ := conv.K8sNetworkPolicyToCalico(np) // a conversion error only drops rules; the KVPair is still returned
@@ -738,14 +762,95 @@ func main() {
 			implC = append(implC, s)
 		}
 
-		// connections
 		var connsC []string
-		genEnd := func() string {
-			if r.chance(70) {
-				return fmt.Sprintf("(EPod %d%%nat)", r.intn(len(pods)))
+		end := func(idx int, ip net.IP) string {
+			if idx >= 0 {
+				return fmt.Sprintf("(EPod %d%%nat)", idx)
 			}
-			v, a := cIP(net.ParseIP(pick(r, extIPs)))
+			v, a := cIP(ip)
 			return fmt.Sprintf("(EExt %s %s)", v, a)
+		}
+		for _, c := range w.conns {
+			connsC = append(connsC, fmt.Sprintf("(%s, %s, %d%%N, %d%%N)", end(c.src, c.srcIP), end(c.dst, c.dstIP), c.proto, c.port))
+		}
+
+		coq := fmt.Sprintf("(Build_case %s %s %s %s %s %v %v %s)",
+			clist(npsC), clist(clusterC), clist(profilesC), clist(podsC), clist(implC), clean, infer, clist(connsC))
+		var tl []string
+		for t := range tags {
+			tl = append(tl, t)
+		}
+		sort.Strings(tl)
+		_ = enc.Encode(line{Coq: coq, NT: nrules > 0, Key: strings.Join(npsC, "|") + "#" + strings.Join(podsC, "|") + "#" + strings.Join(clusterC, "|") + "#" + strings.Join(connsC, "|"),
+			Sample: map[string]any{"policies": npsC, "converted": implC}, Tags: tl})
+	}
+
+	mkPod := func(name, ns string, labels map[string]string, ip string) podInfo {
+		p := &kapiv1.Pod{}
+		p.Name, p.Namespace, p.Labels = name, ns, labels
+		p.Spec.NodeName = "node1"
+		p.Spec.Containers = []kapiv1.Container{{Name: "c"}}
+		p.Status.PodIP = ip
+		p.Status.PodIPs = []kapiv1.PodIP{{IP: ip}}
+		return podInfo{p, net.ParseIP(ip)}
+	}
+
+	// scripted witnesses of the Coq refutations (Proofs.v w1_*, w2_*), replayed on the real code
+	if *witnesses {
+		// w1: policyTypes absent + an egress rule (TCP 80); pod -> 8.8.8.8:443
+		np1 := &networkingv1.NetworkPolicy{}
+		np1.Name, np1.Namespace = "w1", "default"
+		np1.Spec.Egress = []networkingv1.NetworkPolicyEgressRule{{Ports: []networkingv1.NetworkPolicyPort{{Port: &port80}}}}
+		emit(&world{nss: []*kapiv1.Namespace{mkNS("default", map[string]string{})},
+			pods:  []podInfo{mkPod("p0", "default", map[string]string{}, "10.0.1.1")},
+			nps:   []*networkingv1.NetworkPolicy{np1},
+			conns: []connSpec{{src: 0, dst: -1, dstIP: net.ParseIP("8.8.8.8"), proto: 6, port: 443}, {src: 0, dst: -1, dstIP: net.ParseIP("8.8.8.8"), proto: 6, port: 80}}},
+			map[string]bool{"witness:w1": true, "types:absent-with-egress": true})
+		// w2: pod label with the reserved prefix pcns., podSelector on it, ingress isolated; 8.8.8.8 -> pod:80
+		np2 := &networkingv1.NetworkPolicy{}
+		np2.Name, np2.Namespace = "w2", "default"
+		np2.Spec.PodSelector = metav1.LabelSelector{MatchLabels: map[string]string{"pcns.tier": "db"}}
+		np2.Spec.PolicyTypes = []networkingv1.PolicyType{networkingv1.PolicyTypeIngress}
+		emit(&world{nss: []*kapiv1.Namespace{mkNS("default", map[string]string{})},
+			pods:  []podInfo{mkPod("p0", "default", map[string]string{"pcns.tier": "db"}, "10.0.1.1")},
+			nps:   []*networkingv1.NetworkPolicy{np2},
+			conns: []connSpec{{src: -1, srcIP: net.ParseIP("8.8.8.8"), dst: 0, proto: 6, port: 80}}},
+			map[string]bool{"witness:w2": true, "reserved-key": true})
+	}
+
+	for i := 0; i < *n; i++ {
+		tags := map[string]bool{}
+		w := &world{}
+		for _, nsn := range nsNames {
+			ns := mkNS(nsn, genLabels(r, nsKeys, nsVals, 50))
+			if r.chance(5) {
+				ns.Labels["projectcalico.org/name"] = "spoof"
+				tags["ns:name-label"] = true
+			}
+			w.nss = append(w.nss, ns)
+		}
+		npods := 3 + r.intn(3)
+		for j := 0; j < npods; j++ {
+			w.pods = append(w.pods, genPod(r, j))
+		}
+		nnp := 1 + r.intn(2)
+		for j := 0; j < nnp; j++ {
+			w.nps = append(w.nps, genNP(r, j, tags))
+		}
+		if *reserved && r.chance(3) {
+			// a Calico-reserved key used as an ordinary Kubernetes label (dedicated cases, see known-findings.txt)
+			k := pick(r, []string{"pcns.tier", "pcsa.role", "projectcalico.org/namespace", "projectcalico.org/orchestrator"})
+			pi := w.pods[r.intn(len(w.pods))]
+			pi.pod.Labels[k] = "db"
+			w.nps[0].Namespace = pi.pod.Namespace
+			w.nps[0].Spec.PodSelector = metav1.LabelSelector{MatchLabels: map[string]string{k: "db"}}
+			tags["reserved-key"] = true
+		}
+		genEnd := func() (int, net.IP) {
+			if r.chance(70) {
+				return r.intn(len(w.pods)), nil
+			}
+			return -1, net.ParseIP(pick(r, extIPs))
 		}
 		for j := 0; j < 16; j++ {
 			proto := pick(r, []int{6, 6, 6, 17, 17, 132, 1})
@@ -756,17 +861,11 @@ func main() {
 			if port > 65535 {
 				port = 65535
 			}
-			connsC = append(connsC, fmt.Sprintf("(%s, %s, %d%%N, %d%%N)", genEnd(), genEnd(), proto, port))
+			c := connSpec{proto: proto, port: port}
+			c.src, c.srcIP = genEnd()
+			c.dst, c.dstIP = genEnd()
+			w.conns = append(w.conns, c)
 		}
-
-		coq := fmt.Sprintf("(Build_case %s %s %s %s %s %v %s)",
-			clist(npsC), clist(clusterC), clist(profilesC), clist(podsC), clist(implC), clean, clist(connsC))
-		var tl []string
-		for t := range tags {
-			tl = append(tl, t)
-		}
-		sort.Strings(tl)
-		_ = enc.Encode(line{Coq: coq, NT: nrules > 0, Key: strings.Join(npsC, "|") + "#" + strings.Join(podsC, "|") + "#" + strings.Join(clusterC, "|") + "#" + strings.Join(connsC, "|"),
-			Sample: map[string]any{"policies": npsC, "converted": implC}, Tags: tl})
+		emit(w, tags)
 	}
 }
